@@ -455,7 +455,7 @@ pub fn run(tier: &str) -> i32 {
             max_upgrades: ups,
             max_queries: qs,
         };
-        let e = explore(&m, &Limits::new(2, if quick { 55 } else { 6000 }));
+        let e = explore(&m, &Limits::new(2, if quick { 300 } else { 6000 }));
         rep.absorb(
             &format!("FEES theta={} lazy={} n={} upgrades<={} queries<={}", theta, lazy, n, ups, qs),
             e,
